@@ -399,7 +399,7 @@ PROPS['C10']['level_text'] += (' Completeness is a discharged contract on the co
 ITER = [(D, 'ber.decoder::StreamingDecoder.__iter__')]
 for _p in ('C05', 'C07'):
     PROPS[_p]['contracts'] = PROPS[_p]['contracts'] + ITER
-CHOICE_DEC = [(D, 'ber.decoder::ChoicePayloadDecoder.valueDecoder')]
+CHOICE_DEC = [(D, 'ber.decoder::ChoicePayloadDecoder.valueDecoder'), (D, 'ber.decoder::ChoicePayloadDecoder.indefLenValueDecoder')]
 for _p in ('C09', 'C10', 'C12'):
     PROPS[_p]['contracts'] = PROPS[_p]['contracts'] + CHOICE_DEC
 UC = 'contracts.univ_containers'
